@@ -15,7 +15,8 @@ func init() { register("C04", "other", checkC04) }
 
 func checkC04(w *World, r *Result) {
 	r.Explanation = "Decides structural necessary conditions on generator/sql/json.go and tables.go: AGR-C04a/AGR-MD every validator a function body calls (functionName(child)) is generated in the same function on the same path (codeFor(child)), and the naming function never follows a child the generator skips (REC-SHAPE): every called validator is defined in the script; AGR-C04b a jsonb column gets, in one branch, the declarations of its validators and a CHECK calling the validator named for that very type, and jsonValidations names and generates the same type; DECL-ID the CHECK declaration's ID covers table, column and validator (no two CHECKs merged away); AGR-C04n the optional fragments of the array validator are present exactly for their case: the length criterion for fixed arrays (Len >= 0), the empty-array and null acceptance only for slices; the map validator accepts null; AGR-C04l struct keys and per-key checks are appended in lock-step, once per exported field keyed by JSONName (CONS), with an unknown-key rejection (key IN …); AGR-C04u the union validator switches on the members' local Go names (AGR-C02b) and ends with ELSE RETURN FALSE; AGR-C04e the enum validator lists every member via enumTuple with the cast matching the enum's kind; EXH-b typeID and codeFor accept the same kinds; TPL-4 bracket and BEGIN/IF/CASE balance of the PL/pgSQL templates. Does not decide: acceptance or rejection of any document under PostgreSQL's three-valued semantics (needs an evaluator of PL/pgSQL). Known finding: typeID recurses through named types without a guard (`type T []T`)."
-	r.Rules = []string{"AGR-MD", "REC-SHAPE", "AGR-C04b", "DECL-ID", "AGR-C04n", "AGR-C04l", "AGR-C04k", "CONS", "AGR-C04u", "AGR-C02b", "AGR-C04e", "EXH-b", "TPL-4", "REC-kind", "GEN-ID", "CONST-EXACT", "FLW-C09a", "AGR-C09b", "UTF8-SLICE", "ALIAS-APPEND", "STATE-PKG", "PRINTF", "CACHE-DROP", "MUT-AN", "AGR-C09c", "CUTSET"}
+	r.Rules = []string{"AGR-MD", "REC-SHAPE", "AGR-C04b", "DECL-ID", "AGR-C04n", "AGR-C04l", "AGR-C04k", "CONS", "AGR-C04u", "AGR-C02b", "AGR-C04e", "EXH-b", "TPL-4", "REC-kind", "GEN-ID", "CONST-EXACT", "FLW-C09a", "AGR-C09b", "UTF8-SLICE", "ALIAS-APPEND", "STATE-PKG", "PRINTF", "CACHE-DROP", "MUT-AN", "AGR-C09c", "CUTSET", "BYTES-KIND"}
+	bytesKindRule(w, r, "generator/sql", "generator/sql.codeFor")
 	mutAnRule(w, r, func(rel string) bool { return rel == "generator/sql" })
 	// which embedded fields are flattened decides the keys this generator reads and writes (rule shared with C09)
 	shared(r, nil, func(sub *Result) { checkFlatten(w, sub) })
